@@ -193,7 +193,7 @@ def case_round(run, i):
         cols["log2"] = _float_col(rng, n)
         cols["log2"] = np.where(np.isnan(cols["log2"]), 0.25, cols["log2"])    # every bin needs a log2
         cols["depth"] = _float_col(rng, n)
-        cols["probes"] = rng.integers(0, 10**6, n)
+        cols["probes"] = rng.integers(0, int(rng.choice([10**6, 10**9, 2 * 10**12])), n)      # integers beyond 6 significant digits must come back digit for digit
         cols["weight"] = _float_col(rng, n)
         arr = CNA(pd.DataFrame(cols), {"sample_id": "S1"})
     if i % 5:
